@@ -31,6 +31,9 @@ type synthFS struct {
 	// stat sizes are not exact, or a file rewritten shorter after the walk):
 	// the bytes read stay what they are.
 	SizeOff map[string]int64
+	// SymSizeZero: the size of every symlink is announced as 0, which is
+	// what lstat says on sysfs, procfs and some network file systems
+	SymSizeZero bool
 	// OpenErr lists paths whose Open fails.
 	OpenErr map[string]bool
 	// Hook is called on every Read (for delays).
@@ -114,6 +117,9 @@ func (s *synthFS) Walk(ctx context.Context, target string, fn gofs.WalkDirFunc) 
 		st := e.Stat()
 		if off, ok := s.SizeOff[e.Path]; ok {
 			st.Size += off
+		}
+		if s.SymSizeZero && e.Type == tree.Symlink {
+			st.Size = 0
 		}
 		err := fn(e.Path, &fsutil.DirEntryInfo{Stat: st}, nil)
 		if err != nil {
